@@ -937,6 +937,18 @@ def run_files(case):
             R.fail(f"output_phi={phi_name!r}: {fn} missing or different from ParticlePhi", sub="C10.files", sig=dict(sig, clause="phi_file"))
         Y2.rm(fn)
         el += ser.size
+    # two objects alive at once that were asked to write the SAME output_phi name (a second analysis with another l re-using the prefix): the
+    # values held by the first object must not change when the second one writes its file
+    Y2.rm(Y2.npy_name("c10_fl_alias"))
+    b1 = frames_build(case, "c10_fl", Hs, frames, nls_file, wts_file, ppp=np.array(ppp), output_phi="c10_fl_alias")[0]
+    held = np.array(b1.ParticlePhi)
+    l_other = (case["l"] + 1) if case["l"] < 12 else (case["l"] - 1)
+    b2 = frames_build(case, "c10_fl", Hs, frames, nls_file, wts_file, ppp=np.array(ppp), output_phi="c10_fl_alias", l=l_other)[0]
+    if not np.array_equal(np.asarray(b1.ParticlePhi), held) or not close(np.asarray(b1.ParticlePhi), ser):
+        R.fail("ParticlePhi of a live boo_2d object changed when a second object (another l) wrote the same output_phi file",
+               sub="C10.files", sig=dict(sig, clause="phi_alias"))
+    del b2
+    Y2.rm(Y2.npy_name("c10_fl_alias"))
     for per in ("0.2", "0.4", "0.6"):
         w = B.ref_window_len(per, 100, 0.002)
         if not 1 <= w <= F - 1:
